@@ -256,4 +256,14 @@ def Icpt.write (s : Icpt) (p : Bytes) : Icpt × List Bytes × List FecPkt :=
       ({ s with enc := e, buffer := [] }, [p], r.getD [])
     else ({ s with buffer := buf }, [p], [])
 
+/-- The error path of one `Write` when the next writer fails on the calls whose index is in `fail`
+(0 = the media packet, 1.. = the repair packets after it): every call is still made — a failed
+media write does not suppress the repair packets, a failed repair write does not suppress the
+later ones — the errors are joined, and the count returned to the application is the media
+write's (`mediaN`, or 0 when that call failed).  State changes do not depend on failures.
+Result: per call whether it succeeded, the returned count, the number of joined errors. -/
+def writeOutcome (calls : Nat) (fail : List Nat) (mediaN : Nat) : List Bool × Nat × Nat :=
+  let oks := (List.range calls).map fun i => !fail.contains i
+  (oks, if fail.contains 0 then 0 else mediaN, (oks.filter (· == false)).length)
+
 end Interceptor.FlexFec
